@@ -278,10 +278,12 @@ func (c *conn) send(ctx async.Context, msg pmpx.Message) status.Status {
 			return status.OK
 		}
 
-		// Wait for space
+		// Wait for space, the queue wakes only one late waiter when closed
 		select {
 		case <-ctx.Wait():
 			return ctx.Status()
+		case <-c.closed.Wait():
+			return statusConnClosed
 		case <-c.writeq.WriteWait(len(b)):
 			continue
 		}
